@@ -375,7 +375,12 @@ func init() {
 			c.op("hprt " + line) // oracle
 			c.tag("encops:" + bucket(len(ops)))
 			// decoder: the encoder's output as one block, cut at random places, optionally mutated
-			chunks, _, _ := hpencRun(ops)
+			// (the encoder may panic on a changed tree: the hpenc operation above has recorded that; no decoder input then)
+			var chunks [][]byte
+			func() {
+				defer func() { recover() }()
+				chunks, _, _ = hpencRun(ops)
+			}()
 			var block []byte
 			for _, ch := range chunks {
 				block = append(block, ch...)
